@@ -62,6 +62,56 @@ theorem pipeline_repoOK (c : Cfg) (k : Conc) (evs : List Ev)
     obtain ⟨p, hp, rfl⟩ := List.mem_map.mp hq
     exact ⟨(k.pack p).indexPack c, List.mem_map.mpr ⟨p, (hidx p).mp hp, rfl⟩, rfl, rfl⟩
 
+/-- two repositories side by side (the packs that were there and the packs of a new run) -/
+theorem RepoOK.append {c : Cfg} {old new : List BuiltPack} {ipsOld ipsNew : List IndexPack}
+    (h1 : RepoOK c old ipsOld) (h2 : RepoOK c new ipsNew)
+    (hids : ∀ q ∈ old, ∀ q' ∈ new, q.id ≠ q'.id)
+    (hinj : ∀ q ∈ old, ∀ q' ∈ new, q.tpe = q'.tpe → ∀ a ∈ q.adds, ∀ a' ∈ q'.adds,
+      c.hash a.data = c.hash a'.data → a.data = a'.data) :
+    RepoOK c (old ++ new) (ipsOld ++ ipsNew) := by
+  refine ⟨?_, ?_, ?_, ?_, ?_, ?_⟩
+  · intro q hq q' hq' hid
+    rcases List.mem_append.mp hq with hq | hq <;> rcases List.mem_append.mp hq' with hq' | hq'
+    · exact h1.uniq q hq q' hq' hid
+    · exact absurd hid (hids q hq q' hq')
+    · exact absurd hid.symm (hids q' hq' q hq)
+    · exact h2.uniq q hq q' hq' hid
+  · intro q hq
+    rcases List.mem_append.mp hq with hq | hq
+    · exact h1.nonce q hq
+    · exact h2.nonce q hq
+  · intro q hq
+    rcases List.mem_append.mp hq with hq | hq
+    · exact h1.nonempty q hq
+    · exact h2.nonempty q hq
+  · intro q hq q' hq' hty a ha a' ha' hh
+    rcases List.mem_append.mp hq with hq | hq <;> rcases List.mem_append.mp hq' with hq' | hq'
+    · exact h1.inj q hq q' hq' hty a ha a' ha' hh
+    · exact hinj q hq q' hq' hty a ha a' ha' hh
+    · exact (hinj q' hq' q hq hty.symm a' ha' a ha hh.symm).symm
+    · exact h2.inj q hq q' hq' hty a ha a' ha' hh
+  · intro p hp
+    rcases List.mem_append.mp hp with hp | hp
+    · obtain ⟨q, hq, r⟩ := h1.cons p hp; exact ⟨q, List.mem_append_left _ hq, r⟩
+    · obtain ⟨q, hq, r⟩ := h2.cons p hp; exact ⟨q, List.mem_append_right _ hq, r⟩
+  · intro q hq
+    rcases List.mem_append.mp hq with hq | hq
+    · obtain ⟨p, hp, r⟩ := h1.cover q hq; exact ⟨p, List.mem_append_left _ hp, r⟩
+    · obtain ⟨p, hp, r⟩ := h2.cover q hq; exact ⟨p, List.mem_append_right _ hp, r⟩
+
+/-- what the global index reports as present is the plaintext of some add of a stored pack of that type -/
+theorem has_is_added (c : Cfg) (packs : List BuiltPack) (files : List IndexFile)
+    (hok : RepoOK c packs (unmarked files)) (m : IndexType) (idx : Index) (hl : Rustic.Props.C17.Loaded m files idx)
+    (t : BlobType) (id : Nat) (hh : idx.has t id = true) :
+    ∃ q ∈ packs, q.tpe = t ∧ ∃ a ∈ q.adds, c.hash a.data = id := by
+  have hwf : Rustic.Props.C17.WF files := fun p hp => homogeneous_of_cons c packs p (hok.cons p hp)
+  obtain ⟨_, hlisted⟩ := (Rustic.Props.C17.has_iff m files hwf idx hl t id).mp hh
+  obtain ⟨p, hp, b, hb, hbt, hbid⟩ := (Rustic.Props.C17.listedUnmarked_iff files t id).mp hlisted
+  obtain ⟨q, hq, _, hpb⟩ := hok.cons p hp
+  rw [hpb] at hb
+  obtain ⟨a, ha, hh', _, _⟩ := pack_blob_read c q b hb
+  exact ⟨q, hq, by rw [← packer_types c q b hb, hbt], a, ha, by rw [hh', hbid]⟩
+
 /-- every key entered into the pipeline is an add of some stored pack -/
 theorem entered_is_added (k : Conc) (evs : List Ev) (key : Key) (hk : key ∈ entered evs) :
     ∃ q ∈ packsOf k (finalizeAll (runEvs Rustic.Props.C07.init evs)), q.tpe = toBlobType key.1 ∧
